@@ -6,8 +6,9 @@ Perm, which C01 explores).  Every sub-check enumerates a stated finite space com
   mesh     every mesh pattern of length <= 2 (ALL 2^((k+1)^2) shadings) x every text of S<=n
   mesh3    length 3: shadings with <= 2 or >= 14 cells, all unions of full rows/columns, the
            patterns used in the code base  x  S<=n ;  thorough: ALL 2^16 shadings x S3+S4
-  big      length 4 (0/1/24/25 shaded cells, code-base patterns, vincular/covincular all sets,
-           bivincular one column + one row) and the length-6 pattern of the code base
+  big      length 4: 0/1 (thorough also 24/25) shaded cells, thorough also every vincular and
+           covincular set and bivincular one column x one row  x  texts of length 4..6;
+           the seven mesh patterns used in the code base (lengths 3, 4, 6) x texts up to length 7/8
   biv      every BivincularPatt / VincularPatt / CovincularPatt of length <= 3 (all adjacency
            sets) against the adjacency oracle, which never looks at shadings
   bivreq   get_adjacent_requirements describes the same pattern; argument order/iterators
@@ -208,13 +209,13 @@ def fam_mesh3():
 
 
 def fam_big(quick):
-    out, seen = [], set()
+    """Length 4: very light / very heavy shadings, and (thorough) the bivincular classes."""
+    out = []
     k = 4
     sizes = (0, 1) if quick else (0, 1, 24, 25)
     for p in R.perms(k):
         for sh in X.shadings_by_size(k, sizes):
             out.append(mesh_spec(p, sh))
-        out += [mesh_spec(p, sh) for q, sh in CODEBASE if q == p and len(sh) > 1]
         if not quick:
             for a in X.subsets(range(k + 1)):
                 out.append(("vinc", p, a, ()))
@@ -222,13 +223,11 @@ def fam_big(quick):
             for c in range(k + 1):
                 for r in range(k + 1):
                     out.append(("biv", p, (c,), (r,)))
-    out += [mesh_spec(q, sh) for q, sh in CODEBASE if len(q) == 6]
-    res = []
-    for s in out:
-        if s not in seen:
-            seen.add(s)
-            res.append(s)
-    return res
+    return out
+
+
+def fam_codebase():
+    return [mesh_spec(q, sh) for q, sh in CODEBASE]
 
 
 def fam_biv(maxk):
@@ -485,20 +484,24 @@ def run(ctx, only=None):
 
     if want("big"):
         build_family("big", fam_big(quick), ctx)
-        top = 6 if quick else 7
-        lens = [4, 5, 6] + ([] if quick else [7])
-        # the length-6 pattern only meets texts of length >= 6; shorter patterns all texts
-        for n, lo, hi in text_shards(lens, len(_FAM["big"]), 4.0e4):
+        for n, lo, hi in text_shards([4, 5, 6], len(_FAM["big"]), 4.0e4):
             jobs.append((shard_family, ("big", "big", n, lo, hi, n <= 4)))
-        ctx.bounds["big"] = {"patterns": "%d patterns of length 4 and 6 (%s)" % (
+        ctx.bounds["big"] = {"patterns": "%d patterns of length 4 (%s)" % (
             len(_FAM["big"]),
-            "0/1 shaded cells, code-base patterns" if quick else
-            "0/1/24/25 shaded cells, code-base patterns, all vincular and covincular sets, "
-            "bivincular one column x one row"), "texts": "length 4..%d" % top}
+            "0/1 shaded cells" if quick else
+            "0/1/24/25 shaded cells, all vincular and covincular sets, bivincular one column x one row"),
+            "texts": "length 4..6"}
+        build_family("codebase", fam_codebase(), ctx)
+        top = 7 if quick else 8
+        for n, lo, hi in text_shards(range(3, top + 1), len(_FAM["codebase"]), 1.0e4):
+            jobs.append((shard_family, ("codebase", "big", n, lo, hi, n <= 6)))
+        ctx.bounds["codebase"] = {"patterns": "the %d mesh patterns used in permuta/bisc/perm_properties.py "
+                                              "(lengths 3, 4, 6)" % len(_FAM["codebase"]),
+                                  "texts": "length 3..%d" % top}
 
     if want("biv"):
         build_family("biv", fam_biv(3), ctx)
-        top = 5 if quick else 7
+        top = 6 if quick else 7
         dtop = 4 if quick else 5
         for n, lo, hi in text_shards(range(0, top + 1), len(_FAM["biv"]), 4.0e4):
             jobs.append((shard_family, ("biv", "biv", n, lo, hi, n <= dtop)))
@@ -513,7 +516,7 @@ def run(ctx, only=None):
     if want("mixed"):
         build_family("mixed", MIXED_POOL, ctx)
         top = 5 if quick else 6
-        ttop = 4 if quick else 6
+        ttop = 4 if quick else 5
         for n in range(0, top + 1):
             for lo, hi in chunks(n, 6 if n <= 5 else 12):
                 jobs.append((shard_mixed, (n, lo, hi, n <= ttop)))
